@@ -18,7 +18,7 @@ RULE = (
     "Hypothesis-generated operation lists (length <= 30) over keys k0..k4 and paths /p0../p2 with values None / weakref-able "
     "objects / str, capacities {1,2,3,10,unbounded}, base store {memory, local}; each list is applied in lock step to "
     "LRUCacheStore(base) and to a bare store of the same kind and every answer compared with its type; values include objects the file "
-    "codecs cannot serialise (failing store_blob), bytearrays (read back as bytes by the file codecs) and lists that the caller modifies "
+    "codecs cannot serialise (failing store_blob), objects whose truth value raises, blobs written to the underlying store behind the wrapper, bytearrays (read back as bytes by the file codecs) and lists that the caller modifies "
     "after store_blob; on the local base the number of "
     "live fetched objects is counted after every step. Also dds.set_store(..., cache_objects=c) for c in "
     "{None,False,True,0,-1,1,2,5}. Non-trivial = the sequence fetches or probes a key before it is stored and again after, "
@@ -57,8 +57,17 @@ class Bad(Obj):
         raise TypeError("this object cannot be pickled")
 
 
+class Amb(Obj):
+    """a value whose truth value is undefined (like an array with several elements)"""
+
+    def __bool__(self):
+        raise ValueError("the truth value of this object is ambiguous")
+
+
 def mkval(j):
     if isinstance(j, dict):
+        if "amb" in j:
+            return Amb(j["amb"])
         if "bad" in j:
             return Bad(j["bad"])
         if "ba" in j:
@@ -94,7 +103,7 @@ def ops_strategy():
 
     key = st.sampled_from(KEYS)
     val = st.one_of(st.none(), st.builds(lambda n: {"obj": n}, st.integers(0, 50)), st.builds(lambda n: {"obj": n}, st.integers(0, 50)), st.sampled_from(["", "txt"]),
-                    st.builds(lambda n: {"bad": n}, st.integers(0, 5)), st.sampled_from([{"ba": ""}, {"ba": "xy"}]), st.builds(lambda n: {"lst": n}, st.integers(0, 5)))
+                    st.builds(lambda n: {"bad": n}, st.integers(0, 5)), st.builds(lambda n: {"amb": n}, st.integers(0, 5)), st.sampled_from([{"ba": ""}, {"ba": "xy"}]), st.builds(lambda n: {"lst": n}, st.integers(0, 5)))
     op = st.one_of(
         st.tuples(st.just("has"), key),
         st.tuples(st.just("fetch"), key),
@@ -103,6 +112,8 @@ def ops_strategy():
         st.tuples(st.just("sf"), key),
         st.tuples(st.just("sf"), key),
         st.tuples(st.just("smf"), key),
+        st.tuples(st.just("behind"), key),
+        st.tuples(st.just("behind"), key),
         st.tuples(st.just("aba"), st.sampled_from(PATHS), key, key),
         st.tuples(st.just("paths"), st.permutations(PATHS).map(lambda l: list(l)[:2])),
         st.tuples(st.just("sync"), st.dictionaries(st.sampled_from(PATHS), key, min_size=1, max_size=2)),
@@ -163,7 +174,8 @@ def check_case(case, ev=None, scratch=None):
     scratch = scratch or common.Scratch("vf-c12")
     try:
         cap = case["cap"]
-        wrapped = LRUCacheStore(mk_base(case["base"], scratch), cap)
+        under = mk_base(case["base"], scratch)
+        wrapped = LRUCacheStore(under, cap)
         bare = mk_base(case["base"], scratch)
         live = []
         given = {}
@@ -182,6 +194,13 @@ def check_case(case, ev=None, scratch=None):
                     given.setdefault(o[1], []).extend([v, v2])
                 a, b = call(lambda: wrapped.store_blob(o[1], v, None)), call(lambda: bare.store_blob(o[1], v2, None))
                 del v, v2
+            elif kind == "behind":
+                # the blob reaches the underlying store through another handle (another process, another store object)
+                vb = mkval(case["vals"][o[1]])
+                if isinstance(vb, Bad) and case["base"] == "local":
+                    continue
+                a, b = call(lambda: under.store_blob(o[1], vb, None)), call(lambda: bare.store_blob(o[1], mkval(case["vals"][o[1]]), None))
+                del vb
             elif kind == "mutate":
                 # the caller modifies the objects it handed to store_blob (file-backed base only: a memory store keeps the
                 # very object, and a later store_blob of the same content address would then disagree with it)
